@@ -74,6 +74,15 @@ def execute(module, tier, seed=None, decisions=None, preset=None, want_trace=Fal
             viol = (module.PROPERTY + '/hang', 'wall-timeout',
                     'run did not finish within %ds of wall time (non-termination inside '
                     'one callback); last events: %s' % (wall_limit, sim.trace[-3:]))
+        except MemoryError as e:
+            if getattr(module, 'RLIMIT_AS', None):
+                # the check runs its workers under an address-space limit precisely so that a
+                # runaway allocation of the code under test ends here and not in an OOM kill
+                viol = (module.PROPERTY + '/allocation', 'MemoryError',
+                        'the run exhausted the address-space limit of its worker (%d MiB); last events: %s'
+                        % (module.RLIMIT_AS >> 20, sim.trace[-3:]))
+            else:
+                raise
         except RecursionError as e:
             raise HarnessError('RecursionError inside harness: %r' % (e,))
         except Exception as e:
